@@ -143,6 +143,9 @@ type scriptedTransport struct {
 	sincePoll bool
 	failed    []reactRec // attempts that were answered 503 (the policies did not change)
 	faulty    bool       // the current attempt is a faulted one
+	// unit TestWiringThroughManager: the accessor is the manager's own; onPoll(i) runs when observation i starts
+	accFn  func() *config.TxnPoliciesAccessor
+	onPoll func(idx int)
 }
 
 func snap(acc *config.TxnPoliciesAccessor) snapshot {
@@ -192,7 +195,14 @@ func (s *scriptedTransport) RoundTrip(req *http.Request) (*http.Response, error)
 		s.mu.Lock()
 		s.sincePoll = true
 		s.mu.Unlock()
-		s.snaps = append(s.snaps, snap(s.acc))
+		acc := s.acc
+		if s.accFn != nil {
+			acc = s.accFn()
+		}
+		s.snaps = append(s.snaps, snap(acc))
+		if s.onPoll != nil && s.idx < len(s.k.Script) {
+			s.onPoll(s.idx)
+		}
 		if s.idx >= len(s.k.Script) {
 			s.active = false
 			close(s.done)
